@@ -19,9 +19,9 @@ import (
 // events handler adds tasks under the set lock. Real threads: the schedule is sampled, not owned.
 type ReadersCase struct {
 	Workers bool `json:"workers"`
-	Queues  int `json:"queues"`
-	Readers int `json:"readers"`
-	Adds    int `json:"adds"`
+	Queues  int  `json:"queues"`
+	Readers int  `json:"readers"`
+	Adds    int  `json:"adds"`
 }
 
 func genReaders(t *rapid.T) ReadersCase {
